@@ -352,6 +352,13 @@ func dynTargetFor[T ~uint32](tag int, baseName string, baseVal uint32) dynTarget
 		}}
 }
 
+// payload types of a vendor operation, named the way an application may name them: like those of a standard operation
+type EncryptRequestPayload struct{ Data []byte }
+type EncryptResponsePayload struct{ Data []byte }
+
+func (*EncryptRequestPayload) Operation() kmip.Operation  { return kmip.Operation(0x90000000) }
+func (*EncryptResponsePayload) Operation() kmip.Operation { return kmip.Operation(0x90000000) }
+
 // TestDynamic replays every history of RegistryDyn.tla against the real (process-global) registry; every history
 // gets fresh extension values and names, so histories do not disturb each other. Run after the static cases.
 func TestDynamic(t *testing.T) {
@@ -372,6 +379,7 @@ func TestDynamic(t *testing.T) {
 		dynTargetFor[kmip.State](kmip.TagState, "Active", uint32(kmip.StateActive)),
 		dynTargetFor[kmip.CryptographicAlgorithm](kmip.TagCryptographicAlgorithm, "AES", uint32(kmip.CryptographicAlgorithmAES)),
 		dynTargetFor[kmip.ObjectType](kmip.TagObjectType, "SecretData", uint32(kmip.ObjectTypeSecretData)),
+		dynTargetFor[kmip.Operation](kmip.TagOperation, "Encrypt", uint32(kmip.OperationEncrypt)),
 	}
 	steps := 0
 	for h, c := range cases {
@@ -392,6 +400,8 @@ func TestDynamic(t *testing.T) {
 				switch s.Op {
 				case "register":
 					tg.register(val(s.Slot), name(nm[s.Slot]))
+				case "payloads":
+					kmip.RegisterOperationPayload[EncryptRequestPayload, EncryptResponsePayload](kmip.Operation(0x90000000 + uint32(h)))
 				case "swap":
 					nm[1], nm[2] = nm[2], nm[1]
 					tg.registerTwo(val(1), name(nm[1]), val(2), name(nm[2]))
